@@ -107,8 +107,12 @@ impl Property for C20 {
     let plain_hits = hits(&plain);
     let score_sort = case.sort.is_empty() || case.sort.iter().all(|k| k["field"] == "_score");
     // "unscored" = without rescore the flag-less request reports only the default scores 0.0 / 1.0
+    // (asked with the default score sort and without aggregations, rescore and cursor, so that the answer says
+    // something about the query - whether it has any scored term - and not about the mode the request ran in)
     let mut unscored_req = base.clone();
-    unscored_req.as_object_mut().unwrap().remove("rescore");
+    for k in ["rescore", "aggs", "cursor", "sort"] {
+      unscored_req.as_object_mut().unwrap().remove(k);
+    }
     let plain_const = match sut::search(&reader, unscored_req) {
       Ok(u) => u.hits.iter().all(|h| h.score == 0.0) || u.hits.iter().all(|h| h.score == 1.0),
       Err(_) => false,
@@ -168,7 +172,8 @@ impl Property for C20 {
         // listed finding: explain switches the engine into scoring mode, so scores that are not
         // needed for ranking (sort without _score, or a query without any scored term) differ
 
-        if explain && (!uses_score || plain_const) {
+        // (with aggregations in the request scoring is on in both modes, whatever the sort: no excuse then)
+        if explain && ((!uses_score && case.aggs.is_none()) || plain_const) {
           out.fail(SIG_EXPLAIN_SCORING, format!("{what}: {e}; request {req}"));
           if ctx.is_known(Self::ID, SIG_EXPLAIN_SCORING) {
             out.excluded_known += 1;
@@ -209,11 +214,12 @@ impl Property for C20 {
       }
       if cmp == crate::props::c13::AggEq::Different {
         // the listed finding explain-forces-scoring seen through top_hits: under exactly the condition under which
-        // the hits' own scores differ (scores not needed for ranking: a sort without _score, or a query without any
-        // scored term) the first-pass scores reported inside top_hits differ the same way (0.0 / 1.0 vs computed);
+        // the hits' own scores differ for a query without any scored term (default 1.0 vs the computed 0.0) the
+        // first-pass scores reported inside top_hits differ the same way;
         // every count, key and metric - everything but the hit lists of top_hits - must still be equal
-        let sort_uses_score = case.sort.is_empty() || case.sort.iter().any(|k| k["field"] == "_score");
-        if explain && (!sort_uses_score || plain_const) && crate::props::c13::agg_cmp(&crate::props::c13::without_top_hits_lists(&aa), &crate::props::c13::without_top_hits_lists(&ab), false) == crate::props::c13::AggEq::Same {
+        // (only for queries without any scored term: with scored terms the aggregations force scoring in both modes,
+        // also under a sort without _score, and top_hits must agree)
+        if explain && plain_const && crate::props::c13::agg_cmp(&crate::props::c13::without_top_hits_lists(&aa), &crate::props::c13::without_top_hits_lists(&ab), false) == crate::props::c13::AggEq::Same {
           out.fail(SIG_EXPLAIN_SCORING, format!("{what}: top_hits scores {aa} vs {ab}; request {req}"));
           if ctx.is_known(Self::ID, SIG_EXPLAIN_SCORING) {
             out.excluded_known += 1;
